@@ -151,6 +151,22 @@ def struct_unit(v, names, tier, res):
                         res.nontrivial += 1
                         judge(res, v, name, '\r'.join(lines), '%s-in-rep2:pos%d' % (kind, pos), len(lines))
                     res.dims['structures with rep2 insertions'] += 1
+            # every line of the instance with every group once and all optional children, duplicated in place (a segment
+            # allowed once recurring inside nested, optional, non-repeatable groups)
+            trees1 = [t for label, t in st.instances(v, name, ('all',))]
+            if trees1:
+                segs1 = st.flatten(trees1[0])
+                if segs1 and segs1[0] != 'MSH':
+                    segs1 = ['MSH'] + [s for s in segs1 if s != 'MSH']
+                if len(segs1) > len(segs) and len(segs1) <= 45:
+                    base1 = [st.msh_line(v, name)] + [body(v, s, k) for k, s in enumerate(segs1[1:], 1)]
+                    for pos in range(2, len(base1) + 1):
+                        lines = base1[:pos] + [base1[pos - 1]] + base1[pos:]
+                        res.states += 1
+                        res.enumerated += 1
+                        res.nontrivial += 1
+                        judge(res, v, name, '\r'.join(lines), 'dup-in-all:pos%d' % pos, len(lines))
+                    res.dims['structures with duplications in the all-children instance'] += 1
         res.dims['structures'] += 1
     res.sample({'v': v, 'structures': list(names)[:3]}, cap=3)
 
